@@ -90,6 +90,49 @@ pub fn cases(tier: Tier) -> Vec<GCase> {
             }
         }
     }
+    // crafted attack: a forged accumulator chain in which two ADJACENT quads are
+    // (x, y) with delta(x) + delta(y) = 0; the range-checked value is the forged
+    // final accumulator (far out of range). The row model rejects it (two quad
+    // identities fail); it is always replayed on the real prover, which would
+    // accept it if the two identities shared a separation weight.
+    let (cx, cy) = m5::cancelling_quads(1);
+    let even_widths: Vec<usize> = widths(tier).into_iter().filter(|w| w % 2 == 0 && *w >= 8 && *w <= 254).collect();
+    for w in even_widths {
+        let n_acc = {
+            // number of accumulators = allocations of the gadget on an even width
+            let probe = gadget(Entry::Bits, w, zero());
+            match crate::e2::honest(&probe) {
+                Ok(h) => h.meta.hi - h.meta.lo,
+                Err(_) => continue,
+            }
+        };
+        if n_acc < 3 {
+            continue;
+        }
+        let mid = n_acc / 2;
+        for off in 0..4usize.min(n_acc - 1) {
+            let i0 = (mid + off).min(n_acc - 2);
+            let mut acc = zero();
+            let mut chain = vec![];
+            for i in 0..n_acc {
+                let quad = if i == i0 { cx } else if i == i0 + 1 { cy } else { fe(1 + (i % 3) as u64) };
+                acc = fe(4) * acc + quad;
+                chain.push(acc);
+            }
+            let vstar = acc;
+            // the forged value is a pseudo-random field element: for wide widths it may be in range
+            let e = if m5::in_range(&vstar, w) { Expect::Sat(vec![]) } else { Expect::Unsat };
+            let mut c = GCase::new(gadget(Entry::Bits, w, vstar), e, "range/Bits/forged-chain");
+            c.dev_stride = 0;
+            let chain2 = chain.clone();
+            c.named = Some(Arc::new(move |h: &crate::e2::Honest| {
+                let script: Vec<(usize, Fe)> = chain2.iter().enumerate().map(|(i, v)| (h.meta.lo + i, *v)).collect();
+                vec![crate::e2::Dev { script, tag: format!("cancelling-quads@{}", i0), must_confirm: true }]
+            }));
+            c.confirm = true;
+            out.push(c);
+        }
+    }
     out
 }
 
